@@ -46,6 +46,9 @@ pub fn into_stream_$NAME<Source: VSource, I: ZvtSerializer + Sync + Send>(input:
             items0 == old(__sink).items(), stamps0 == old(__sink).stamps(),
             seq_state::<$REPLY, Source>(src, __sink, input.zs_spec(), inbox0, c0, w0, items0, stamps0, (__sink.items().len() - items0.len()) as nat),
             __sink.items().len() >= items0.len(),
+//@ tag seq.$NAME.loop_left_only_behind_final_packet C05 C06
+        // the reply loop is left normally only behind a final packet: any other way out would end the stream without the
+        // final packet AND without an error item
         ensures
             __sink.items().len() >= items0.len() + 1,
             terminal_$NAME(pkt::<$REPLY>(inbox0.skip(apdu_total(inbox0).unwrap()), (__sink.items().len() - items0.len() - 1) as nat).unwrap()),
